@@ -626,8 +626,10 @@ impl GraphSpec {
     pub fn cls(&self, k: usize) -> &str {
         &self.changes[k - 1].cls
     }
+    /// Invalid whatever the state: forged signature, refused action, or "detached" -- a change
+    /// without dependencies that is not the root (nothing ties it to the object).
     pub fn always_invalid(&self, k: usize) -> bool {
-        matches!(self.cls(k), "badSig" | "rejectFirst" | "rejectLater")
+        matches!(self.cls(k), "badSig" | "rejectFirst" | "rejectLater") || self.changes[k - 1].deps.is_empty()
     }
     /// All sets of changes containing the root and closed under dependencies.
     pub fn down_sets(&self) -> Vec<BTreeSet<usize>> {
@@ -849,7 +851,7 @@ impl Rng {
 /// A random change graph with `m` changes: each depends on 1..=3 earlier-created changes (or the
 /// root), timestamps in 1..=3, classes drawn from `classes` (weights), `needs` targets among the
 /// concurrent, earlier-created changes.
-pub fn random_graph(rng: &mut Rng, m: usize, classes: &[(&str, usize)]) -> GraphSpec {
+pub fn random_graph(rng: &mut Rng, m: usize, classes: &[(&str, usize)], detached_one_in: usize) -> GraphSpec {
     let total: usize = classes.iter().map(|c| c.1).sum();
     let mut g = GraphSpec { changes: Vec::new() };
     for k in 1..=m {
@@ -859,6 +861,9 @@ pub fn random_graph(rng: &mut Rng, m: usize, classes: &[(&str, usize)]) -> Graph
             // bias towards recent changes so that chains and merges both occur
             let d = if rng.below(4) == 0 { rng.below(k) } else { k.saturating_sub(1 + rng.below(3.min(k))) };
             deps.insert(d);
+        }
+        if detached_one_in > 0 && rng.below(detached_one_in) == 0 {
+            deps.clear();
         }
         let mut pick = rng.below(total);
         let mut cls = classes[0].0;
